@@ -577,9 +577,12 @@ class Body:
             outs.append(self._value_out(l, p, depth + 1, seen))
             edges.append((p, bid))
         # merge identical branch values (same reaching definition through several goto blocks)
+        # merge branches that carry the *same definition* (one reaching definition arriving through several goto blocks);
+        # equal-looking values of different definitions (two `1.0` constants selected by different switch arms) stay
+        # separate branches, otherwise the surviving branch would keep the edge condition of only one of them
         uniq = []
         for o, e in zip(outs, edges):
-            if not any(o is u or o == u for u, _ in uniq):
+            if not any(o is u or (o == u and o[0] not in ('const',)) for u, _ in uniq):
                 uniq.append((o, e))
         if len(uniq) == 1:
             return uniq[0][0]
